@@ -352,6 +352,25 @@ pub struct SimReport {
     pub main_panicked: bool,
 }
 
+/// One run on a thread of its own: thread-local state of the standard library (the keys of
+/// `RandomState`, drawn once per thread - see detrand.c) then starts from the same point for
+/// every run, whatever ran before it in this process
+pub fn execute_isolated(scn: &dyn crate::scenario::Scenario, plan: &serde_json::Value) -> Outcome {
+    std::thread::scope(|s| {
+        std::thread::Builder::new()
+            .name("run".into())
+            .stack_size(32 << 20)
+            .spawn_scoped(s, || scn.execute(plan))
+            .expect("thread for a run")
+            .join()
+            .unwrap_or_else(|_| {
+                let mut o = Outcome::default();
+                o.violate("HARNESS", "run-thread-panicked", "the thread executing the run panicked outside the simulation".to_string());
+                o
+            })
+    })
+}
+
 /// Execute `make()`'s future on a fresh paused current-thread runtime with a fresh world.
 /// `vcap` bounds virtual time. Returns what the future returned (None on cap or panic).
 pub fn run<T, F, Fut>(seed: u64, vcap: Duration, make: F) -> (Option<T>, SimReport)
